@@ -94,6 +94,9 @@ def rules(ctx):
     timing_rule(ctx)
     for o_ in ctx.obligations[before:]:
         o_.id = o_.id.replace("C14/R3.", "C14/R5.timing.")
+    before = len(ctx.obligations)
+    formulas.network_predicates(ctx, "R5")       # the overflow depot is infinitely far in both directions (arc costs)
+    ctx.obligations[before:] = [o_ for o_ in ctx.obligations[before:] if "nowhere" in o_.id]
     ties.range_bound_rule(ctx, "R3.predecessors-keep-ties", N("predecessors"), "pred")
     ties.range_bound_rule(ctx, "R3.successors-keep-ties", N("successors"), "succ")
     fd, edges = flownet.edge_sites(ctx)
